@@ -98,7 +98,42 @@ fn check_serials(what: &str, size: usize, serials: &[u32], first: u32, handed: u
     }
 }
 
+/// `num_choices` as generic code sees it: through a value, a reference, a reference to a reference.
+fn nc_generic<C: ChoicesDistribution>(c: C) -> usize {
+    c.num_choices().get()
+}
+
+/// Nested collection generators (a collection of collections) with different inner and outer
+/// sizes, owning and borrowing, by method call on a generator and through the trait.
+fn nested_collections(seed: u64, rep: &mut Report) {
+    for (k, (outer, inner)) in [(0usize, 3usize), (1, 0), (1, 5), (2, 7), (5, 2), (7, 1), (3, 3), (40, 6), (6, 40)].into_iter().enumerate() {
+        let mut rng = TraceRng::stream(mix(seed, 900 + k as u64));
+        let shape = |v: &Vec<Vec<El>>| (v.len(), v.iter().map(Vec::len).collect::<Vec<_>>());
+        let want = (outer, vec![inner; outer]);
+        let mut got: Vec<(&'static str, (usize, Vec<usize>))> = Vec::new();
+        let c = Counting::new(0);
+        let g_inner = c.to_collection_generator(inner);
+        let v: Vec<Vec<El>> = g_inner.to_collection_generator(outer).sample(&mut rng);
+        got.push(("generator.to_collection_generator(outer) [method call]", shape(&v)));
+        let v: Vec<Vec<El>> = ConvertToCollectionGenerator::to_collection_generator(&g_inner, outer).sample(&mut rng);
+        got.push(("ConvertToCollectionGenerator::to_collection_generator(&generator, outer)", shape(&v)));
+        let v: Vec<Vec<El>> = Generator::new(&g_inner, outer).sample(&mut rng);
+        got.push(("Generator::new(&generator, outer)", shape(&v)));
+        let v: Vec<Vec<El>> = Counting::new(0).into_collection_generator(inner).into_collection_generator(outer).sample(&mut rng);
+        got.push(("into_collection_generator nested", shape(&v)));
+        for (how, g) in got {
+            rep.eval();
+            rep.count("collection:nested");
+            rep.distinct(fnv_str(&format!("nested{how}{outer}x{inner}")));
+            if g != want {
+                rep.violation("C18/collection/nested/size", || json!({"construction": how, "requested_outer": outer, "requested_inner": inner, "delivered_outer": g.0, "delivered_inner_sizes": g.1}));
+            }
+        }
+    }
+}
+
 fn collections(seed: u64, rep: &mut Report) {
+    nested_collections(seed, rep);
     let mut sizes: Vec<usize> = (0..=130).collect();
     sizes.extend([191, 192, 193, 255, 256, 257, 320, 511, 512, 513, 640, 1000, 1023, 1024, 1025, 2048, 4096, 4097, 10_000, 65_536, 65_537, 131_073, 300_000, 1_048_577, 1_200_000]);
     for (k, &size) in sizes.iter().enumerate() {
@@ -239,6 +274,16 @@ fn choices(draws: u64, seed: u64, rep: &mut Report) {
         // Vec, owning + cloning
         let d: OneOfCloning<Vec<El>, El> = v.clone().into_distribution().unwrap();
         let nc = d.num_choices().get();
+        {
+            // the number of choices is the same however the distribution is reached
+            let by_ref: Choose<'_, El> = IntoDistribution::<&El>::into_distribution(&v).unwrap();
+            let cloning: ChooseCloning<'_, El> = IntoDistribution::<El>::into_distribution(&v).unwrap();
+            let seen = [nc_generic(&d), nc_generic(&&d), nc_generic(&by_ref), nc_generic(&&by_ref), nc_generic(&cloning), <&OneOfCloning<Vec<El>, El> as ChoicesDistribution>::num_choices(&&d).get()];
+            rep.eval();
+            if seen.iter().any(|x| *x != n) {
+                rep.violation("C18/choice/num_choices-through-references", || json!({"members": n, "num_choices_seen_through [&D, &&D, &Choose, &&Choose, &ChooseCloning, <&D>::num_choices]": seen}));
+            }
+        }
         drive("Vec.into_distribution (owning, cloning)", n, nc, draws, seed, rep, |r| by_serial(&d.sample(r)));
         let d: OneOfCloning<Vec<El>, El> = OneOfCloning::new(v.clone()).unwrap();
         let nc = d.num_choices().get();
